@@ -10,6 +10,10 @@ import (
 	"syscall"
 )
 
+type randT = rand.Rand
+
+func sprintf(f string, a ...any) string { return fmt.Sprintf(f, a...) }
+
 func statIno(fi fs.FileInfo) uint64 {
 	if st, ok := fi.Sys().(*syscall.Stat_t); ok {
 		return st.Ino
